@@ -1068,7 +1068,7 @@ func e2eStage(dir string, seed uint64, tier string, noCLI bool) error {
 	wr := &gal.Writer{Dir: dir, Require: "From Apko Require Import Corr.C13.", Type: "e2e_case", Check: "check_e2e", Shard: 40}
 	n, ncli := 60, 8
 	if tier == "thorough" {
-		n, ncli = 600, 60
+		n, ncli = 1500, 120
 	}
 	e2eCorpus(wr, w, 0)
 	e2eCorpus(wr, w, 1)
